@@ -431,6 +431,19 @@ func (x *Evaluator) evalU(v ssa.Value, e *env, c *evalCtx) Val {
 			return OpaqueV{"range-next"}
 		}
 		if lk, ok := v.Tuple.(*ssa.Lookup); ok {
+			// v, ok := table[key] on a constant table under a constant key
+			if m, isMap := x.evalC(lk.X, e, c).(MapV); isMap {
+				if k, isConst := constKeyOf(x.evalC(lk.Index, e, c)); isConst {
+					val, present := m.Entries[k]
+					if v.Index == 1 {
+						return boolConst(present)
+					}
+					if present {
+						return val
+					}
+					return x.zeroOf(v.Type())
+				}
+			}
 			return OpaqueV{"maplookup:" + lk.X.Name()}
 		}
 		return OpaqueV{"extract"}
@@ -1888,6 +1901,16 @@ func (x *Evaluator) zeroOf(t types.Type) Val {
 	if _, ok := t.Underlying().(*types.Map); ok {
 		return MapV{Entries: map[string]Val{}}
 	}
+	if _, ok := t.Underlying().(*types.Slice); ok {
+		return ListV{IsFinite: true, Origin: "zero"}
+	}
+	if st, ok := t.Underlying().(*types.Struct); ok {
+		fields := map[string]Val{}
+		for i := 0; i < st.NumFields(); i++ {
+			fields[st.Field(i).Name()] = x.zeroOf(st.Field(i).Type())
+		}
+		return StructV{Fields: fields}
+	}
 	return OpaqueV{"zero"}
 }
 
@@ -1983,7 +2006,7 @@ func (x *Evaluator) globalMapLiteral(g *ssa.Global) (Val, bool) {
 	}
 	var build func(v ssa.Value, d int) (Val, bool)
 	build = func(v ssa.Value, d int) (Val, bool) {
-		if d > 3 {
+		if d > 5 {
 			return nil, false
 		}
 		switch y := v.(type) {
@@ -1993,6 +2016,51 @@ func (x *Evaluator) globalMapLiteral(g *ssa.Global) (Val, bool) {
 			return FuncV{Fn: y}, true
 		case *ssa.ChangeType:
 			return build(y.X, d+1)
+		case *ssa.UnOp:
+			if y.Op != token.MUL {
+				return nil, false
+			}
+			switch src := y.X.(type) {
+			case *ssa.Global:
+				// another constant table of the package
+				if src == g {
+					return nil, false
+				}
+				return x.globalMapLiteral(src)
+			case *ssa.Alloc:
+				// a struct literal built field by field and loaded whole
+				st, ok := src.Type().Underlying().(*types.Pointer).Elem().Underlying().(*types.Struct)
+				if !ok {
+					return nil, false
+				}
+				fields := map[string]Val{}
+				for _, ref := range *src.Referrers() {
+					switch z := ref.(type) {
+					case *ssa.FieldAddr:
+						for _, r3 := range *z.Referrers() {
+							sto, ok := r3.(*ssa.Store)
+							if !ok || sto.Addr != ssa.Value(z) {
+								return nil, false
+							}
+							val, ok := build(sto.Val, d+1)
+							if !ok {
+								return nil, false
+							}
+							fields[st.Field(z.Field).Name()] = val
+						}
+					case *ssa.UnOp, *ssa.DebugRef:
+					default:
+						return nil, false
+					}
+				}
+				for i := 0; i < st.NumFields(); i++ {
+					if _, ok := fields[st.Field(i).Name()]; !ok {
+						fields[st.Field(i).Name()] = x.zeroOf(st.Field(i).Type())
+					}
+				}
+				return StructV{Fields: fields}, true
+			}
+			return nil, false
 		case *ssa.Slice:
 			// a list literal: elements stored one by one (scalars) or field by field (structs)
 			al, ok := y.X.(*ssa.Alloc)
